@@ -62,9 +62,9 @@ let pfx_op (f : string list) =
   | ["pw"; n] -> m_pub := withdraw (n_of_dec n) !m_pub
   | ["jnew"; j] -> Hashtbl.replace m_peers (int_of_string j) peer_new
   | ["jreach"; j; b] -> let j = int_of_string j in Hashtbl.replace m_peers j (set_reach (b = "1") (peer j))
-  | ["jsync"; j; v] -> let j = int_of_string j in Hashtbl.replace m_peers j (on_sync (n_of_dec v) (peer j))
+  | ["jsync"; j; _; v] -> let j = int_of_string j in Hashtbl.replace m_peers j (on_sync (n_of_dec v) (peer j))
   | ["jkick"; j] -> let j = int_of_string j in Hashtbl.replace m_peers j (try_fetch (peer j))
-  | ["ans"; j; c] ->
+  | ["ans"; j; _; c] ->
       let j = int_of_string j in
       let c = if c = "-" then None else Some (n_of_dec c) in
       Hashtbl.replace m_peers j (net_answer c !m_pub (peer j))
@@ -103,6 +103,139 @@ let pfx_obs (f : string list) =
         oracle "pfx-caught-up-peer-differs" (Printf.sprintf "peer %s known=%s set=%s publisher set=%s" j known set !i_pub_set)
   | _ -> Printf.printf "BADLINE %d obs %s\n" !lineno (String.concat " " f)
 
+(* ------------------------------------------------------------------ FIB installer *)
+let t_me = ref N0
+let t_rib : ribent list ref = ref []
+let t_nbr : (n * n) list ref = ref []
+let t_pfx : (n * n list) list ref = ref []
+let t_costs : (string * (string * string * (string * string * string) list)) list ref = ref []  (* dest -> nh1hash nh2hash [(id,hash,cost)] *)
+let t_levels : (string * (string * string)) list ref = ref []                                    (* dest -> l1 l2 *)
+let m_fib = ref fib_empty
+let m_rt : rtable ref = ref []
+let m_cmds : cmd list ref = ref []
+let i_rt : rtable ref = ref []
+let cur_tables () = { t_me = !t_me; t_rib = List.rev !t_rib; t_nbr = List.rev !t_nbr; t_pfx = List.rev !t_pfx }
+
+let show_cmd = function
+  | Reg (nm, f, c) -> Printf.sprintf "R:%s:%s:%s" (dec_of_n nm) (dec_of_n f) (dec_of_n c)
+  | Unreg (nm, f) -> Printf.sprintf "U:%s:%s" (dec_of_n nm) (dec_of_n f)
+let parse_cmd (s : string) : cmd option =
+  match String.split_on_char ':' s with
+  | ["R"; nm; f; c] when c <> "nil" -> Some (Reg (n_of_dec nm, n_of_dec f, n_of_dec c))
+  | ["U"; nm; f] -> Some (Unreg (n_of_dec nm, n_of_dec f))
+  | _ -> None
+let show_rt (rt : rtable) : string =
+  if rt = [] then "-" else
+  String.concat "," (List.sort compare (List.map (fun ((p, f), c) -> Printf.sprintf "%s:%s:%s" (dec_of_n p) (dec_of_n f) (dec_of_n c)) rt))
+let show_fibst (st : fibst) : string =
+  let l = List.concat_map (fun (p, es) ->
+    if es = [] then [Printf.sprintf "%s:empty" (dec_of_n p)] else
+    List.map (fun e -> Printf.sprintf "%s:%s:%s" (dec_of_n p) (dec_of_n e.fe_face) (dec_of_n e.fe_cost)) es) st.f_prefixes in
+  Printf.sprintf "%d %d %s" (List.length st.f_prefixes) (List.length st.f_names)
+    (if l = [] then "-" else String.concat "," (List.sort compare l))
+
+(* decimal strings of uint64 compared numerically *)
+let dec_lt a b = String.length a < String.length b || (String.length a = String.length b && a < b)
+
+(* spec-level check of a RIB entry: (nextHop1, lowest1), (nextHop2, lowest2) are the two least (cost, hash) pairs among
+   the next hops with cost < infinity; (0, infinity) when there is none *)
+let check_rib_entry dest =
+  match List.assoc_opt dest !t_costs, List.assoc_opt dest !t_levels with
+  | Some (h1, h2, costs), Some (l1, l2) ->
+      let inf = dec_of_n cost_infinity in
+      let fin = List.filter (fun (_, _, c) -> dec_lt c inf) costs in
+      let sorted = List.sort (fun (_, ha, ca) (_, hb, cb) ->
+        if ca = cb then (if ha = hb then 0 else if dec_lt ha hb then -1 else 1) else if dec_lt ca cb then -1 else 1) fin in
+      let e1, e2 = match sorted with
+        | [] -> ("0", inf), ("0", inf)
+        | [(_, h, c)] -> (h, c), ("0", inf)
+        | (_, h, c) :: (_, h', c') :: _ -> (h, c), (h', c') in
+      if (h1, l1) <> e1 || (h2, l2) <> e2 then
+        oracle "rib-two-least" (Printf.sprintf "dest=%s has (%s,%s),(%s,%s) expected (%s,%s),(%s,%s)" dest h1 l1 h2 l2 (fst e1) (snd e1) (fst e2) (snd e2))
+  | _ -> ()
+
+let fib_tab (f : string list) =
+  match f with
+  | ["me"; x] -> t_me := n_of_dec x; t_rib := []; t_nbr := []; t_pfx := []; t_costs := []; t_levels := []
+  | ["rib"; nm; pf; nh1; l1; nh2; l2] ->
+      t_rib := { re_name = n_of_dec nm; re_pfx = n_of_dec pf; re_nh1 = n_of_dec nh1; re_l1 = n_of_dec l1;
+                 re_nh2 = n_of_dec nh2; re_l2 = n_of_dec l2 } :: !t_rib;
+      t_levels := (nm, (l1, l2)) :: !t_levels;
+      if nh1 = "999999" || nh2 = "999999" then oracle "rib-unnamed-next-hop" ("dest=" ^ nm)
+  | ["costs"; nm; h1; h2; l] ->
+      let cs = if l = "-" then [] else List.map (fun s -> match String.split_on_char ':' s with
+        | [i; h; c] -> (i, h, c) | _ -> ("?", "?", "?")) (String.split_on_char ',' l) in
+      t_costs := (nm, (h1, h2, cs)) :: !t_costs
+  | ["nbr"; nm; face] -> t_nbr := (n_of_dec nm, n_of_dec face) :: !t_nbr
+  | ["pfx"; r; l] -> t_pfx := (n_of_dec r, set_of_csv l) :: !t_pfx
+  | _ -> Printf.printf "BADLINE %d tab %s\n" !lineno (String.concat " " f)
+
+let mismatch_detail (t : tables) (rt : rtable) : string * string =
+  let keys = List.sort_uniq compare (List.map (fun ((p, f), _) -> (p, f)) rt @ desired_keys t) in
+  let bad = List.filter_map (fun (p, f) ->
+    let a = rt_lookup rt (p, f) and d = desired t p f in
+    if a = d then None else
+    let s = function None -> "none" | Some c -> dec_of_n c in
+    Some ((match a, d with Some _, None -> "stale" | None, Some _ -> "missing" | _ -> "cost"),
+          Printf.sprintf "(prefix %s face %s: installed %s, tables prescribe %s)" (dec_of_n p) (dec_of_n f) (s a) (s d))) keys in
+  let kinds = List.sort_uniq compare (List.map fst bad) in
+  (String.concat "+" kinds, String.concat " " (List.map snd bad))
+
+let fib_check_mirror tag =
+  let t = cur_tables () in
+  if not (mirrorsb t !i_rt) then begin
+    let k, d = mismatch_detail t !i_rt in
+    oracle (Printf.sprintf "fib-%s-route%s" k tag) d
+  end
+
+let fib_go () =
+  List.iter (fun (d, _) -> check_rib_entry d) !t_levels;
+  let t = cur_tables () in
+  let st, cs = fib_update t !m_fib in
+  m_fib := st; m_cmds := cs; m_rt := rt_run !m_rt cs
+
+let net_go () =
+  List.iter (fun (d, _) -> check_rib_entry d) !t_levels;
+  let t = cur_tables () in
+  let st, cs = fib_update t !m_fib in
+  m_fib := st; m_cmds := cs; m_rt := rt_run !m_rt cs
+
+let net_obs (f : string list) =
+  match f with
+  | ["cmds"; l] ->
+      let items = if l = "-" then [] else String.split_on_char ',' l in
+      let parsed = List.map (fun s -> (s, parse_cmd s)) items in
+      List.iter (fun (s, c) -> if c = None then oracle "fib-malformed-command" s) parsed;
+      i_rt := rt_run !i_rt (List.filter_map snd parsed);
+      (* the router decided by itself whether to run fibUpdate: at quiescence installed must equal desired *)
+      fib_check_mirror "-after-event";
+      if show_rt !m_rt <> show_rt !i_rt then diverge "rt" (show_rt !m_rt) (show_rt !i_rt)
+  | ["fib"; np; nn; l] ->
+      let i = String.concat " " [np; nn; l] in
+      let m = show_fibst !m_fib in
+      if m <> i then diverge "fib" m i;
+      if show_rt !i_rt <> l then oracle "fib-prefixes-map-differs-from-command-fold" (Printf.sprintf "fold=%s map=%s" (show_rt !i_rt) l)
+  | _ -> Printf.printf "BADLINE %d obs %s\n" !lineno (String.concat " " f)
+
+let fib_obs (f : string list) =
+  match f with
+  | ["cmds"; l] ->
+      let items = if l = "-" then [] else String.split_on_char ',' l in
+      let parsed = List.map (fun s -> (s, parse_cmd s)) items in
+      List.iter (fun (s, c) -> if c = None then oracle "fib-malformed-command" s) parsed;
+      let ic = List.filter_map snd parsed in
+      let m = List.sort compare (List.map show_cmd !m_cmds) and i = List.sort compare (List.map show_cmd ic) in
+      if m <> i then diverge "cmds" (String.concat "," m) (String.concat "," i);
+      i_rt := rt_run !i_rt ic;
+      fib_check_mirror ""
+  | ["fib"; np; nn; l] ->
+      let i = String.concat " " [np; nn; l] in
+      let m = show_fibst !m_fib in
+      if m <> i then diverge "fib" m i;
+      (* invariant of the statement on the implementation: installed (fold of its commands) = its prefixes map *)
+      if show_rt !i_rt <> l then oracle "fib-prefixes-map-differs-from-command-fold" (Printf.sprintf "fold=%s map=%s" (show_rt !i_rt) l)
+  | _ -> Printf.printf "BADLINE %d obs %s\n" !lineno (String.concat " " f)
+
 let kind = ref ""
 
 let () =
@@ -115,8 +248,17 @@ let () =
           kind := "pfx"; case_id := "pfx" ^ k; incr n_cases;
           m_pub := pub_new (n_of_dec s0);
           Hashtbl.reset m_peers; Hashtbl.reset i_hist; i_init := s0
+      | "case" :: "fib" :: k :: _ ->
+          kind := "fib"; case_id := "fib" ^ k; incr n_cases;
+          m_fib := fib_empty; m_rt := []; i_rt := []; m_cmds := []
       | "op" :: f -> incr n_ops; (match !kind with "pfx" -> pfx_op f | _ -> ())
-      | "obs" :: f -> incr n_obs; (match !kind with "pfx" -> pfx_obs f | _ -> ())
+      | "tab" :: f -> fib_tab f
+      | "case" :: "net" :: k :: _ ->
+          kind := "net"; case_id := "net" ^ k; incr n_cases;
+          m_fib := fib_empty; m_rt := []; i_rt := []; m_cmds := []
+      | ["go"; "fu"] -> fib_go ()
+      | ["go"; "net"] -> net_go ()
+      | "obs" :: f -> incr n_obs; (match !kind with "pfx" -> pfx_obs f | "fib" -> fib_obs f | "net" -> net_obs f | _ -> ())
       | ["end"] -> kind := ""
       | [""] | [] -> ()
       | "#" :: _ -> ()
